@@ -148,7 +148,7 @@ impl Universe {
     }
 }
 
-fn adjacent(a: u8, b: u8) -> bool {
+pub fn adjacent(a: u8, b: u8) -> bool {
     (rank_of(a) - rank_of(b)).abs() <= 1 && (file_of(a) - file_of(b)).abs() <= 1
 }
 
